@@ -78,12 +78,19 @@ pub fn gen_case(tier: Tier, c: &mut Chooser) -> LefCase {
     let (focus, lib) = lefgen::gen_library(c);
     let value_devs = c.deviations();
     let mut devs: Vec<Dev> = vec![];
-    let all = cached(&PLAN1, c.choices(), || lr::enumerate(&lib, &[], None));
+    let all = cached(&PLAN1, c.choices(), || {
+        let mut v = lr::enumerate(&lib, &[], None);
+        if value_devs >= 2 {
+            // two value deviations: only the global lexical deviations (END LIBRARY, case, joins, permutations)
+            v.retain(|d| !matches!(d, Dev::Gap { .. } | Dev::Case { .. } | Dev::Spell { .. }));
+        }
+        v
+    });
     let i = c.free(all.len() + 1, "lex1");
     if i > 0 {
         devs.push(all[i - 1].clone());
         if tier.is_thorough() && value_devs == 0 {
-            let all2 = cached(&PLAN2, c.choices(), || lr::enumerate(&lib, &devs, Some(6)));
+            let all2 = cached(&PLAN2, c.choices(), || lr::enumerate(&lib, &devs, Some(12)));
             let j = c.free(all2.len() + 1, "lex2");
             if j > 0 {
                 devs.push(all2[j - 1].clone());
@@ -169,14 +176,15 @@ fn odd_leading_name(r: &Rendered) -> Option<(char, usize)> {
     None
 }
 
-fn passes(cx: &Cx, text: &str, expected: &LefLibrary, odd: Option<(char, usize)>) -> bool {
+fn passes(cx: &Cx, text: &str, expected: &LefLibrary, odd: Option<(char, usize)>, may_err: bool) -> bool {
     match open_text(cx, text, "retest.lef") {
         Opened::Ok(mut l) => {
             normalize(&mut l);
             l == *expected
         }
         // a name starting with punctuation is present: what remains is exactly that (separately recorded) rejection
-        Opened::Err(_, Some((Some(c), line))) => odd == Some((c, line)),
+        Opened::Err(_, Some((Some(c), line))) if odd == Some((c, line)) => true,
+        Opened::Err(..) => may_err,
         _ => false,
     }
 }
@@ -268,7 +276,7 @@ fn attribute(case: &LefCase, expected: &LefLibrary, failure: &Opened, cx: &mut C
             clear_props(&mut exp);
         }
         cx.stats.evaluations += 1;
-        passes(cx, &text, &exp, odd)
+        passes(cx, &text, &exp, odd, matches!(case.expect, Expect::OkOrErr(_)))
     };
     if !repaired(None, cx) {
         return None;
@@ -383,7 +391,7 @@ impl CaseDriver for C04 {
                 lefgen::NUM_ALTS.len(),
                 lefgen::NAME_ALTS.len(),
                 self.bound(tier),
-                if tier.is_thorough() { "; for values without value deviation also every pair of lexical deviations whose second lies within 6 tokens after the first" } else { "" }
+                if tier.is_thorough() { "; values with two value deviations get the default form and the global lexical deviations only (END LIBRARY, global case, joined properties, permutations); values without value deviation also get every pair of lexical deviations whose second lies within 12 tokens after the first (any distance if the first is global)" } else { "" }
             ),
             assumptions: vec![
                 "decimals are compared by numeric value, never by scale; antenna keys are compared case-insensitively; BEGINEXT data is compared as a token sequence (white-space normalised)".into(),
@@ -474,6 +482,59 @@ impl CaseDriver for C04 {
     }
 }
 
+/// `ByCase` with a work split made for this space: every node reached through *free* value choices
+/// (focus, version, ...) is expanded; each costed value alternative and each lexical alternative below such
+/// a node is one sub-tree unit. (The generic breadth-first split leaves whole version sub-spaces as single
+/// units, which serialises the tail of the run.)
+pub struct LefSpace<T: CaseDriver>(pub ByCase<T>);
+
+impl<T: CaseDriver> Driver for LefSpace<T> {
+    fn id(&self) -> &'static str {
+        self.0.id()
+    }
+    fn describe(&self, tier: Tier) -> Describe {
+        self.0.describe(tier)
+    }
+    fn units(&self, tier: Tier) -> Vec<String> {
+        use crate::explore::{children, Unit};
+        let bound = self.0 .0.bound(tier);
+        let mut out: Vec<String> = vec![];
+        let mut stack: Vec<Vec<u32>> = vec![vec![]];
+        while let Some(pre) = stack.pop() {
+            let mut ch = Chooser::new(&pre);
+            let _ = self.0 .0.gen(tier, &mut ch);
+            out.push(Unit::Single(pre.clone()).to_string());
+            for kid in children(&ch.trace, pre.len(), bound) {
+                let point = &ch.trace[kid.len() - 1];
+                if !point.costed && !point.label.starts_with("lex") {
+                    stack.push(kid);
+                } else {
+                    out.push(Unit::Tree(kid).to_string());
+                }
+            }
+        }
+        out
+    }
+    fn run_unit(&self, unit: &str, cx: &mut Cx) {
+        self.0.run_unit(unit, cx)
+    }
+    fn run_case(&self, key: &str, cx: &mut Cx) {
+        self.0.run_case(key, cx)
+    }
+    fn classify_crash(&self, tier: Tier, key: &str, death: &Death) -> Option<String> {
+        self.0.classify_crash(tier, key, death)
+    }
+    fn render_case(&self, tier: Tier, key: &str) -> Value {
+        self.0.render_case(tier, key)
+    }
+    fn guards(&self, tier: Tier, stats: &Stats, distinct: u64) -> Result<(), String> {
+        self.0.guards(tier, stats, distinct)
+    }
+    fn deviation_bound(&self, tier: Tier) -> Option<usize> {
+        self.0.deviation_bound(tier)
+    }
+}
+
 pub fn driver() -> Box<dyn Driver> {
-    Box::new(ByCase(C04))
+    Box::new(LefSpace(ByCase(C04)))
 }
